@@ -285,7 +285,14 @@ def _spec_worker(args):
                     out["rat"] = (str(g), f"rat {M} {','.join(map(str, pc))} | {','.join(map(str, qc))} | {','.join(map(str, counts))}")
                     out["rat_truth"] = counts[: N + 1] == [sum(upword.true_terms(root, n).values()) for n in range(N + 1)]
                 else:
-                    out["rat_skipped"] = "not rational"
+                    # a closed form that is not rational: expanded by sympy (trusted for this step) and compared with the counts
+                    M = 16
+                    ser = sympy.series(g, X, 0, M + 1).removeO()
+                    coeffs = [ser.coeff(X, n) for n in range(M + 1)]
+                    counts = [spec.count_objects_of_size(n) for n in range(M + 1)]
+                    out["alg"] = (str(g), [str(c) for c in coeffs] == [str(c) for c in counts],
+                                  counts[: N + 1] == [sum(upword.true_terms(root, n).values()) for n in range(N + 1)],
+                                  f"series {coeffs[:10]} counts {counts[:10]}")
             except speccheck.Timeout:
                 raise
             except Exception as exc:  # noqa: BLE001
@@ -309,7 +316,13 @@ def run(tier, seed, factor=1):
     jobs = [(seed * 967 + i, common.scale(tier, 5, 15), N) for i in range(common.scale(tier, 48, 160) * factor)]
     fouts = [o for part in specrun.pool_map(form_worker, jobs) for o in part]
     rnd = random.Random(seed * 1000003 + 20)
-    souts = specrun.pool_map(spec_worker, [(c, N) for c in speccheck.make_configs(rnd, common.scale(tier, 100, 800) * factor)])
+    scfgs = speccheck.make_configs(rnd, common.scale(tier, 100, 800) * factor)
+    grnd = random.Random(seed * 86028121 + 20)
+    for _ in range(common.scale(tier, 8, 60) * factor):  # U-gram variant D (Dyck words): algebraic closed forms, a repeated non-atom factor
+        scfgs.append(dict(gram=["D"] + [grnd.choice(["F", "P", "S"]) for _ in range(grnd.choice([0, 0, 1]))], gram_flat=True, alpha="ab",
+                          db=grnd.choice(["RuleDB", "RuleDBForgetStrategy", "RuleDBForest"]), seed=grnd.randrange(10**6), perc=grnd.choice([100, 20, 1]),
+                          smallest=False, expand_verified=False))
+    souts = specrun.pool_map(spec_worker, [(c, N) for c in scfgs])
     specrun.quiet()
     lines, metas = [], []
     for o in fouts:
@@ -353,6 +366,12 @@ def run(tier, seed, factor=1):
             metas.append((1, {"cfg": o["cfg"], "genf": o["rat"][0]}, "rat"))
             res.dist["closed forms checked"] += 1
             if not o["rat_truth"]:
+                res.fail("counts-ne-truth", o["cfg"], "")
+        elif "alg" in o:
+            res.dist["closed forms checked (not rational: sympy series to order 16)"] += 1
+            if not o["alg"][1]:
+                res.fail("closed-form-taylor-coefficients-ne-counts", {"cfg": o["cfg"], "genf": o["alg"][0]}, o["alg"][3])
+            if not o["alg"][2]:
                 res.fail("counts-ne-truth", o["cfg"], "")
         elif "rat_skipped" in o:
             res.dist["closed form skipped: " + o["rat_skipped"][:40]] += 1
